@@ -121,6 +121,75 @@ func r34FlagTable(c *core.Ctx) {
 		}
 		return true
 	})
+	// the other ways to a flag: its environment variable is derived from its own name, and no alias or variable is
+	// shared between two flags (with urfave/cli the first declaration wins silently)
+	{
+		norm := func(x string) string {
+			return strings.ToLower(strings.NewReplacer("_", "", "-", "").Replace(x))
+		}
+		aliasOf, envOf := map[string]string{}, map[string]string{}
+		nEnv := 0
+		inspectMain(func(n ast.Node) bool {
+			cl, ok := n.(*ast.CompositeLit)
+			if !ok {
+				return true
+			}
+			nt, ok := info.TypeOf(cl).(*types.Named)
+			if !ok || nt.Obj().Pkg() == nil || nt.Obj().Pkg().Path() != cliPkg || !strings.HasSuffix(nt.Obj().Name(), "Flag") {
+				return true
+			}
+			name := ""
+			for _, el := range cl.Elts {
+				if kv, ok := el.(*ast.KeyValueExpr); ok && canon(kv.Key) == "Name" {
+					name, _ = core.ConstString(info, kv.Value)
+				}
+			}
+			for _, el := range cl.Elts {
+				kv, ok := el.(*ast.KeyValueExpr)
+				if !ok {
+					continue
+				}
+				key := canon(kv.Key)
+				if key != "EnvVars" && key != "Aliases" {
+					continue
+				}
+				ast.Inspect(kv.Value, func(x ast.Node) bool {
+					e, ok := x.(ast.Expr)
+					if !ok {
+						return true
+					}
+					sv, isConst := core.ConstString(info, e)
+					if !isConst {
+						return true
+					}
+					switch key {
+					case "EnvVars":
+						nEnv++
+						construct := "env-var-named-after-its-flag/" + name
+						if norm(sv) != norm(name) {
+							c.Bad(R, construct, e.Pos(), fmt.Sprintf("the environment variable of flag %q is derived from %q: setting that variable switches this option, and the variable named after the flag does nothing", name, sv))
+						} else if prev, dup := envOf[norm(sv)]; dup && prev != name {
+							c.Bad(R, construct, e.Pos(), fmt.Sprintf("flags %q and %q read the same environment variable", prev, name))
+						} else {
+							envOf[norm(sv)] = name
+							c.OK(R, construct, e.Pos(), "derived from the flag's own name constant")
+						}
+					case "Aliases":
+						if prev, dup := aliasOf[sv]; dup && prev != name {
+							c.Bad(R, "alias-unique/"+sv, e.Pos(), fmt.Sprintf("alias %q is declared for %q and for %q", sv, prev, name))
+						}
+						aliasOf[sv] = name
+						if _, clash := declared[sv]; clash && sv != name {
+							c.Bad(R, "alias-unique/"+sv, e.Pos(), fmt.Sprintf("alias %q of flag %q is the name of another flag", sv, name))
+						}
+					}
+					return false
+				})
+			}
+			return true
+		})
+		c.Note(R, "%d environment variable names, %d aliases examined", nEnv, len(aliasOf))
+	}
 	c.Check(R, "declared-flags", m.Decl.Pos(), len(declared) >= 9, fmt.Sprintf("%d flags declared", len(declared)), fmt.Sprintf("only %d flags declared, expected >= 9", len(declared)))
 	// reads
 	read := map[string]int{}
